@@ -20,6 +20,7 @@ import (
 	"sort"
 	"strings"
 	"sync"
+	"sync/atomic"
 	"time"
 
 	"github.com/compose-spec/compose-go/v2/loader"
@@ -30,6 +31,9 @@ import (
 	"verif/harness/internal/inventory"
 	"verif/harness/internal/sched"
 )
+
+// c19FreeHangs counts the free-running traversals of this worker process that did not return
+var c19FreeHangs int32
 
 func init() {
 	Register("C19", "model_checking", C19)
@@ -293,6 +297,11 @@ func c19Worker(args []string) int {
 			// the traversal running freely (no scheduler gates, whose channels would order the goroutines for the race detector):
 			// every service the options select is visited exactly once
 			var viol []string
+			// three walks that did not return are enough to report: the remaining ones are not started (each would wait 20 s)
+			if atomic.LoadInt32(&c19FreeHangs) >= 3 {
+				results[i] = c19TaskResult{Detail: "not run: three free-running traversals of this job already did not return"}
+				continue
+			}
 			for round := 0; round < 6; round++ {
 				var mu sync.Mutex
 				visits := map[string]int{}
@@ -313,6 +322,7 @@ func c19Worker(args []string) int {
 					}
 				case <-time.After(20 * time.Second):
 					viol = append(viol, "hang: free-running traversal does not return")
+					atomic.AddInt32(&c19FreeHangs, 1)
 				}
 				mu.Lock()
 				for n := 1; n <= t.Cfg.N; n++ {
